@@ -52,6 +52,12 @@ func main() {
 					pi, _ := strconv.Atoi(ws[4])
 					runNumPath(o, ws[2], hlib.UnHex(ws[3]), pi, strings.Join(ws[5:], " "))
 				}
+			case "jsonf":
+				if section == "" || section == "interp" {
+					if !replayFloat(o, ws) {
+						o.Verdict("BADOP", "cannot replay: "+l)
+					}
+				}
 			case "ntree":
 				if section == "" || section == "interp" {
 					replayNTree(o, repo, ws)
@@ -119,6 +125,7 @@ func main() {
 		}
 		genFileSessions(o, r, nSess)
 		genNumBoundaries(o, r)
+		genFloats(o, r, th)
 		genDeepJSON(o, r, th)
 		genJSON(o, r, th)
 	}
